@@ -105,93 +105,155 @@ def boolean_op(rep, F):
 
 
 def conversions(rep, F):
-    rep.rule("R4.3", "ring_to_shape_path: empty ring -> empty path, otherwise all coordinates but the last, in order")
-    rep.rule("R4.4", "polygon_from_shape: each path is turned into a line string, closed, reversed; the first is the exterior, the rest the interiors; result through Polygon::new")
+    """R4.3 / R4.4 on inputs of concrete size (exact unrolling; helper functions of geo are inlined, so extracting or inlining helpers and
+    switching between loops and iterator chains does not matter)."""
+    rep.rule("R4.3", "ring_to_shape_path (rings of 0, 1, 2 and 4 coordinates): empty ring -> empty path, otherwise all coordinates but the last, in order, each wrapped unchanged")
+    rep.rule("R4.4", "polygon_from_shape (shapes of 0, 1 and 3 paths): each path is turned into a line string, closed, then reversed; the first is the exterior, the rest the interiors in order; result through Polygon::new")
+    LS = "geo_types::geometry::line_string::LineString"
     try:
         fn = F.one(r"^%sring_to_shape_path$" % CONV, crates=("geo",))
-        ps = [p for p in opaque(F).run(fn) if p.kind == "ret"]
         okk = True
-        seen = set()
-        for p in ps:
-            e = [v for t, v in p.pc if "is_empty" in bare(t)]
-            r = bare(p.ret)
-            if e and e[0] == 1:
-                seen.add("empty")
-                if not re.search(r"vec!\(\[\]\)|new\(\)|into_vec", r):
-                    okk = False
-            else:
-                seen.add("drop-last")
-                if not (re.search(r"a1\.0\[RangeTo::RangeTo\(\(len\(a1\.0\) Sub 1\)\)\]|index\(a1\.0, RangeTo::RangeTo\(sub\(len\(a1\.0\), 1\)\)\)", r) and r.startswith("collect(map(copied(iter(")):
-                    okk = False
-                    rep.bad("R4.3", "drop-last", "non-empty ring is converted to %s, expected ring[..len-1] copied in order" % r[:140], where=fn.loc())
-        if okk and seen == {"empty", "drop-last"}:
-            rep.ok("R4.3", "ring_to_shape_path")
-        elif okk:
-            rep.bad("R4.3", "rows", "rows %s" % seen, where=fn.loc())
+        for N in (0, 1, 2, 4):
+            elems = tuple(("index", ("field", ("deref", ("arg", 1)), "0"), ("const", k)) for k in range(N))
+            ring = ("&", ("adt", LS, "LineString", (("call", "vec!", (("array", elems),)),)))
+            ps = [p for p in Symex(F, inline_crates=("geo", "geo_types"), loop_bound=N + 3, concrete_iters=True).run(fn, args=[ring])]
+            want = "vec!([%s])" % ", ".join("BoolOpsCoord::BoolOpsCoord(a1.0[%d])" % k for k in range(max(N - 1, 0)))
+            got = sorted({bare(p.ret) if p.kind == "ret" else p.kind for p in ps})
+            if got != [want]:
+                okk = False
+                rep.bad("R4.3", "drop-last", "a ring of %d coordinates is converted to %s, expected %s (all coordinates but the closing one, in order)" % (N, [g[:120] for g in got][:2], want[:120]), where=fn.loc())
+                break
+        if okk:
+            rep.ok("R4.3", "ring_to_shape_path[0,1,2,4 coordinates]")
     except (KeyError, Unanalysable) as e:
         rep.bad("R4.3", "anchor", str(e))
     try:
         fn = F.one(r"^%spolygon_from_shape$" % CONV, crates=("geo",))
-        cls = F.closures_of(fn)
-        seq = []
-        for g in cls:
-            seq += [c.path.rsplit("::", 1)[-1] for c in g.calls()]
-        main = [c.path.rsplit("::", 1)[-1] for c in fn.calls()]
-        i_close = seq.index("close") if "close" in seq else -1
-        i_rev = seq.index("reverse") if "reverse" in seq else -1
-        if not (seq and seq[0] == "line_string_from_path" and 0 < i_close < i_rev):
-            rep.bad("R4.4", "closure", "each path is processed by %s, expected line_string_from_path, close, reverse" % seq, where=fn.loc())
-        elif not ("next" in main and "collect" in main and main[-1] == "new" or (main.index("next") < main.index("collect") and "new" in main)):
-            rep.bad("R4.4", "assembly", "polygon assembled by %s, expected first path as exterior (next), rest collected as interiors, Polygon::new" % main, where=fn.loc())
-        else:
-            rep.ok("R4.4", "polygon_from_shape", sample={"per_path": seq, "assembly": main})
-    except (KeyError, ValueError) as e:
+        okk = True
+        for K in (0, 1, 3):
+            elems = tuple(("index", ("arg", 1), ("const", k)) for k in range(K))
+            shape = ("call", "vec!", (("array", elems),))
+            ex = Symex(F, inline_crates=("geo", "geo_types"), no_inline=[r"line_string_from_path$", r"LineString::<T>::close$", r"::reverse$", r"Polygon::<T>::new$", r"LineString::<T>::new$"],
+                       loop_bound=K + 3, concrete_iters=True)
+            ps = ex.run(fn, args=[shape])
+            if len(ps) != 1 or ps[0].kind != "ret" or ps[0].pc:
+                rep.bad("R4.4", "paths", "polygon_from_shape on %d paths: %s" % (K, [(p.kind, show_pc(p.pc)[:60]) for p in ps][:3]), where=fn.loc())
+                okk = False
+                break
+            p = ps[0]
+            r = bare(p.ret)
+            if K == 0:
+                if not re.match(r"^new\(new\(vec!\(\[\]\)\), vec!\(\[\]\)\)$", r):
+                    rep.bad("R4.4", "empty-shape", "an empty shape gives %s, expected Polygon::new(empty line string, no interiors)" % r[:100], where=fn.loc())
+                    okk = False
+                continue
+            m = re.match(r"^new\((.*), vec!\(\[(.*)\]\)\)$", r)
+            order = [int(x) for x in re.findall(r"line_string_from_path\(a1\[(\d)\]\)", r)]
+            first = [int(x) for x in re.findall(r"line_string_from_path\(a1\[(\d)\]\)", m.group(1))] if m else []
+            dedup = [x for i_, x in enumerate(order) if i_ == 0 or order[i_ - 1] != x]
+            if not m or set(first) != {0} or dedup != list(range(K)):
+                rep.bad("R4.4", "assembly", "the polygon for paths 0..%d is %s: expected Polygon::new(ring of path 0, [rings of the other paths in order])" % (K - 1, r[:160]), where=fn.loc())
+                okk = False
+                break
+            # per path: line_string_from_path, then close, then reverse, nothing else
+            for k in range(K):
+                ops = [c[1].rsplit("::", 1)[-1] for c in calls_of(p) if c[2] and ("line_string_from_path(a1[%d])" % k in bare(c[2][0]) or bare(c[2][0]) == "a1[%d]" % k)
+                       and not c[1].endswith("Polygon::<T>::new")]
+                if ops != ["line_string_from_path", "close", "reverse"]:
+                    rep.bad("R4.4", "closure", "path %d is processed by %s, expected line_string_from_path, close, reverse (closing after reversing, or not at all, yields rings that are not "
+                            "closed / wound like geo's)" % (k, ops), where=fn.loc())
+                    okk = False
+                    break
+            if not okk:
+                break
+        if okk:
+            rep.ok("R4.4", "polygon_from_shape[0,1,3 paths]")
+    except (KeyError, Unanalysable, ValueError) as e:
         rep.bad("R4.4", "anchor", str(e))
 
 
 def unary(rep, F):
-    rep.rule("R4.5", "unary_union probes the winding of every ring until one is found (inside the per-ring closure, guarded by is_none), Clockwise -> Positive else Negative, OverlayRule::Subject")
+    """R4.5 on a collection of two operands with two rings each (exact unrolling; `rings()` is answered by a concrete iterator): every ring
+    becomes a subject path, in order; the fill rule is Positive exactly when the FIRST ring (in traversal order) that has a winding is clockwise,
+    Negative otherwise (also when no ring has one); overlay rule Subject; the result comes from the engine."""
+    from ..symex import _ret
+    rep.rule("R4.5", "unary_union (2 operands x 2 rings, exact unrolling): all rings are handed over in order; FillRule::Positive iff the first ring that has a winding order is clockwise, else Negative; OverlayRule::Subject")
     try:
         fn = F.one(r"^%sunary_union$" % BO, crates=("geo",))
     except KeyError as e:
         rep.bad("R4.5", "anchor", str(e))
         return
-    sites = []
-    for g in [fn] + F.closures_of(fn):
-        names = [c.path.rsplit("::", 1)[-1] for c in g.calls()]
-        for c in g.calls():
-            if c.method == "winding_order":
-                per_ring = g.kind == "Closure" and any("LineString" in ty for ty in g.locals[2:g.arg_count + 1])
-                guarded = "is_none" in names and names.index("is_none") < names.index("winding_order")
-                sites.append((g, per_ring, guarded, names))
-    if not sites:
-        rep.bad("R4.5", "winding-probe", "unary_union never asks a ring for its winding", where=fn.loc())
-    for g, per_ring, guarded, names in sites:
-        if per_ring and guarded:
-            rep.ok("R4.5", "winding-probe-per-ring", sample=names)
-        else:
-            rep.bad("R4.5", "winding-probe", "the winding is %s: a collection whose first ring has no winding (an empty or flat ring) gets the fill rule for counter-clockwise input whatever its real winding" %
-                    ("probed outside the per-ring traversal (only one ring is asked)" if not per_ring else "overwritten by later rings instead of kept from the first ring that has one"), where=g.loc())
+
+    def rings_model(ex, st, call, args):
+        b = ex.canon(st, args[0])
+        while b[0] in ("&", "deref"):
+            b = b[1]
+        return _ret(st, ("citer", (("&", ("field", b, "r0")), ("&", ("field", b, "r1"))), 0))
+    bs = ("&", ("array", (("index", ("arg", 1), ("const", 0)), ("index", ("arg", 1), ("const", 1)))))
+    order = ["a1[0].r0", "a1[0].r1", "a1[1].r0", "a1[1].r1"]
     try:
-        ps = [p for p in opaque(F).run(fn) if p.kind == "ret"]
-        tab = {}
-        for p in ps:
-            ov = [c for c in calls_of(p) if c[1].endswith("::overlay")]
-            if not ov:
-                rep.bad("R4.5", "unary_union:paths", "a result path of unary_union returns without calling the overlay engine (guard: %s)" % show_pc(p.pc)[:200], where=fn.loc())
-                continue
-            rule, fill = bare(ov[0][2][1]), bare(ov[0][2][2])
-            atoms = [(bare(t), v) for t, v in p.pc if "Clockwise" in bare(t)]
-            if atoms:
-                tab[atoms[-1][1]] = (rule, fill, atoms[-1][0])
-        good = tab.get(1, ("", "", ""))[:2] == ("OverlayRule::Subject()", "FillRule::Positive()") and tab.get(0, ("", "", ""))[:2] == ("OverlayRule::Subject()", "FillRule::Negative()") \
-            and "WindingOrder::Clockwise()" in tab[1][2] and "CounterClockwise" not in tab[1][2]
-        if good:
-            rep.ok("R4.5", "fill-rule-table")
-        else:
-            rep.bad("R4.5", "fill-rule-table", "fill rule table is %s" % {k: v[:2] for k, v in tab.items()}, where=fn.loc())
-    except (Unanalysable, KeyError) as e:
+        ex = Symex(F, models={BO + "BooleanOps::rings": rings_model}, inline_crates=("geo", "geo_types"),
+                   no_inline=[r"Winding.*::winding_order$", r"ring_to_shape_path$", r"multi_polygon_from_shapes$"], loop_bound=10, concrete_iters=True)
+        ps = ex.run(fn, args=[bs])
+    except Unanalysable as e:
         rep.bad("R4.5", "unanalysable", str(e), where=fn.loc())
+        return
+    n = 0
+    for p in ps:
+        if p.kind != "ret":
+            rep.bad("R4.5", "unary_union:paths", "a %s path [%s]" % (p.kind, show_pc(p.pc)[:100]), where=fn.loc())
+            return
+        ov = [c for c in calls_of(p) if c[1].endswith("::overlay")]
+        subj = [c for c in calls_of(p) if c[1].endswith("::with_subj")]
+        if len(ov) != 1 or len(subj) != 1:
+            rep.bad("R4.5", "unary_union:paths", "a result path of unary_union returns without calling the overlay engine (guard: %s)" % show_pc(p.pc)[:200], where=fn.loc())
+            return
+        want_subj = "vec!([%s])" % ", ".join("ring_to_shape_path(%s)" % r for r in order)
+        if bare(subj[0][2][0]) != want_subj:
+            rep.bad("R4.5", "subject", "the subject paths are %s, expected every ring of every operand in order" % bare(subj[0][2][0])[:200], where=fn.loc())
+            return
+        rule, fill = bare(ov[0][2][1]), bare(ov[0][2][2])
+        none, some, eqs = set(), [], {}
+        for t, v in p.pc:
+            b = bare(t)
+            m = re.match(r"^discr\(winding_order\((a1\[\d\]\.r\d)\)\)$", b)
+            m2 = re.match(r"^is_none\(winding_order\((a1\[\d\]\.r\d)\)\)$", b)
+            m3 = re.match(r"^eq\((?:winding_order\((a1\[\d\]\.r\d)\)|Option::None\(\)), Option::Some\(WindingOrder::Clockwise\(\)\)\)$|^eq\(Option::Some\(WindingOrder::Clockwise\(\)\), (?:winding_order\((a1\[\d\]\.r\d)\)|Option::None\(\))\)$", b)
+            if m:
+                (some.append(m.group(1)) if v == 1 else none.add(m.group(1)))
+            elif m2:
+                (none.add(m2.group(1)) if v == 1 else some.append(m2.group(1)))
+            elif m3:
+                eqs[m3.group(1) or m3.group(2) or "none"] = v
+            else:
+                rep.bad("R4.5", "winding-probe", "unary_union decides on `%s`, which is not a ring's winding order" % b[:120], where=fn.loc())
+                return
+        n += 1
+        first = some[0] if some else None
+        if first is None:
+            # the last candidate may be compared directly (its Option value decides: None -> not clockwise)
+            direct = [r for r in eqs if r != "none"]
+            if len(direct) == 1 and direct[0] not in none:
+                first = direct[0]
+        prefix = order[:order.index(first)] if first else order
+        if any(r not in none for r in prefix):
+            rep.bad("R4.5", "winding-probe", "the winding that decides the fill rule is taken from %s although the earlier ring(s) %s were not found to lack a winding: the winding must come from the "
+                    "first ring that has one — a collection whose first ring is empty or flat otherwise gets the fill rule for counter-clockwise input whatever its real winding" % (
+                        first, [r for r in prefix if r not in none]), where=fn.loc())
+            return
+        cw = eqs.get(first if first else "none")
+        if first is None:
+            cw = 0 if cw is None or "none" in eqs else cw
+        if cw is None:
+            rep.bad("R4.5", "fill-rule-table", "the fill rule does not depend on whether the first wound ring (%s) is clockwise [%s]" % (first, show_pc(p.pc)[:160]), where=fn.loc())
+            return
+        if rule != "OverlayRule::Subject()" or fill != ("FillRule::Positive()" if (cw == 1 and first is not None) else "FillRule::Negative()"):
+            rep.bad("R4.5", "fill-rule-table", "first wound ring %s, clockwise=%s: overlay(%s, %s); expected Subject with Positive exactly for a clockwise first wound ring" % (first, cw, rule, fill), where=fn.loc())
+            return
+    if n < 5:
+        rep.bad("R4.5", "floor", "only %d rows" % n, where=fn.loc())
+    else:
+        rep.ok("R4.5", "unary_union[%d rows; 2 operands x 2 rings]" % n)
 
 
 def clip(rep, F):
